@@ -17,6 +17,7 @@ import (
 type cacheFunctions[MetadataT any] struct {
 	cacheIterator iter.Seq2[CacheKey, *EntryMetadata[MetadataT]]
 	removeEntry   func(key CacheKey) error
+	isExpired     func(key CacheKey) bool // must be called with the key's lock held
 	getCacheSize  func() int64
 	getCacheLen   func() int
 	getLock       func(key CacheKey) *sync.RWMutex
@@ -120,6 +121,14 @@ func (j *cacheJanitor[MetadataT]) cleanExpiredEntries() {
 		locked := lock.TryLock()
 		if !locked {
 			slog.Info("Failed to acquire lock for key", "key", key.Hex)
+			continue
+		}
+
+		// The scan above ran without the lock: the entry may have been replaced by a fresh one
+		// (or removed) in the meantime, so the decision is taken again now that we hold the lock.
+		if !j.cacheFns.isExpired(key) {
+			lock.Unlock()
+			slog.Info("Cache entry is no longer expired, keeping it", "key", key.Hex)
 			continue
 		}
 
